@@ -81,11 +81,9 @@ func verifC17(calls int) {
 			for j := 0; j < m && l0+j < len(log); j++ {
 				verifAssert("callbacks run in registration order for this call", log[l0+j].call == c && log[l0+j].cb == j)
 			}
-			verifAssert("accepted call reads the clock again for lastRun", len(readings) == n0+2)
-			if len(readings) < n0+2 {
-				return
-			}
-			newRun := readings[n0+1]
+			// the instant of this run is the last clock reading the call made (an implementation may read the
+			// clock once for both the check and lastRun, or once for each)
+			newRun := readings[len(readings)-1]
 			if haveLast && eff > 0 {
 				verifAssert("accepted calls are spaced at least SkipInterval apart", newRun-lastRun >= eff)
 			}
